@@ -22,5 +22,8 @@ python3 - "$id" "$out" <<PY
 import json,sys
 id,out=sys.argv[1],sys.argv[2]
 p="/verif/seeded/%s/meta.json"%id
-m=json.load(open(p)); m["detected_by"]=out.strip(); json.dump(m,open(p,"w"),indent=1)
+import os
+m=json.load(open(p))
+m["detected_by"]=((m.get("detected_by","")+" ") if os.environ.get("SEED_APPEND") else "")+out.strip()
+json.dump(m,open(p,"w"),indent=1)
 PY
